@@ -33,7 +33,13 @@ GroupProgs == {NGroup(NVar(""), << Pair(k, v) >>) : k \in KeyExprs, v \in ValExp
                     NGroup(NVar(""), << Pair(NStr(ka), ID), Pair(NStr(kb), NCall(NVar("count"), <<NVar("")>>)) >>),
                     NGroup(NVar(""), << Pair(NStr(ka), ID), Pair(NStr(ka), K) >>),
                     NGroup(PA(<<NVar(""), NName(kk)>>), << Pair(NCall(NVar("string"), <<NVar("")>>), NVar("")) >>),
-                    PA(<<NGroup(NVar(""), << Pair(S, ID) >>), NName(kx)>>) }
+                    PA(<<NGroup(NVar(""), << Pair(S, ID) >>), NName(kx)>>),
+                    \* a grouping of a variable followed by a further step: the path is anchored at the variable, the sequence
+                    \* is grouped once (its members are counted over all items, and the result is not repeated per context item)
+                    PA(<<NGroup(NVar(""), << Pair(S, NCall(NVar("count"), <<NVar("")>>)) >>), NName(kx)>>),
+                    PA(<<NGroup(NPred(NVar(""), <<NCmpOp(">", ID, NNum(IntV(0)))>>), << Pair(S, NCall(NVar("count"), <<NVar("")>>)) >>), NName(kx)>>),
+                    PA(<<NGroup(NVar("$"), << Pair(S, NArray(<<ID>>)) >>), NName(kx)>>),
+                    NBlock(<<NAssign("v", NVar("")), PA(<<NGroup(NVar("v"), << Pair(S, NCall(NVar("sum"), <<K>>)) >>), NName(kx)>>)>>) }
 
 \* grouping an ordered sequence: each member's value is v over the group's items in the order the order-by gave them
 Desc(e) == NSort(NVar(""), <<[dir |-> ">", e |-> e]>>)
